@@ -13,6 +13,7 @@ import json
 import multiprocessing as mp
 import os
 import time
+import zlib
 from collections import Counter
 
 from . import common as C
@@ -111,7 +112,21 @@ def judge_shift(ctx, text, k, expected):
     return out
 
 
-JUDGES = {"sem": judge_sem, "total": judge_total, "geninterp": judge_geninterp, "shift": judge_shift}
+def judge_opt(ctx, text, k, expected):
+    """C02: every optimizer configuration gives the same success/failure and the same tree as optimizer=None."""
+    out = []
+    base = M.run_parse(_pest, ctx["parsers"]["interp"], ctx["rule"], text, k)
+    base.pop("fpos", None)
+    for name, (pi, pg) in ctx["optparsers"].items():
+        for how, p in (("interpreted", pi), ("generated", pg)):
+            o = M.run_parse(_pest, p, ctx["rule"], text, k)
+            o.pop("fpos", None)
+            if o != base:
+                out.append(("opt", {"passes": name, "how": how, "unoptimized": base, "optimized": o, "expected": expected}))
+    return out
+
+
+JUDGES = {"opt": judge_opt, "sem": judge_sem, "total": judge_total, "geninterp": judge_geninterp, "shift": judge_shift}
 
 
 # ------------------------------------------------------------------------------------ worker
@@ -136,7 +151,10 @@ def process_lines(args):
     for line in lines:
         rec = C.decode_printt(line)
         g = rec["g"]
-        gtext = gast.print_grammar(g)
+        style = cfg.get("style", "alt")
+        if style == "alt":  # alternate between the two printers, deterministically per grammar
+            style = "min" if (zlib.crc32(line.encode()) & 1) else "full"
+        gtext = gast.print_grammar(g, style=style)
         res["grammars"] += 1
         # round-trip guard: the front end must have built the intended AST (else it is C10's business)
         try:
@@ -159,8 +177,38 @@ def process_lines(args):
             if len(res["viol"]) < 10:
                 res["viol"].append({"kind": "build", "grammar": gtext, "detail": {"error": f"{type(e).__name__}: {e}"[:300]}})
             continue
+        if cfg.get("opt_cfgs"):
+            ctx["optparsers"] = {}
+            bad = False
+            for passes in cfg["opt_cfgs"]:
+                name = "+".join(passes) if passes else "(none)"
+                try:
+                    po = _pest.Parser.from_grammar(gtext, optimizer=M.optimizer_for(_pest, passes))
+                    ctx["optparsers"][name] = (po, M.Generated(po.generate()))
+                except Exception as e:  # noqa: BLE001
+                    res["nviol"] += 1
+                    bad = True
+                    if len(res["viol"]) < VIOL_CAP:
+                        res["viol"].append({"kind": "opt-build", "grammar": gtext, "detail": {"passes": name, "error": f"{type(e).__name__}: {e}"[:300]}})
+            if bad:
+                continue
         for kd in gast.kinds(g):
             res["kinds"][kd] += 1
+        if cfg.get("gen_twice"):
+            for mode in ("interp", "opt"):
+                try:
+                    _, base_p = M.build(_pest, gtext, mode)
+                    s1, s2 = base_p.generate(), base_p.generate()
+                    if s1 != s2:
+                        res["nviol"] += 1
+                        res["viol"].append({"kind": "gen-nondeterministic", "grammar": gtext, "detail": {"mode": mode}})
+                    _, other = M.build(_pest, gtext, mode)
+                    if other.generate() != s1:
+                        res["nviol"] += 1
+                        res["viol"].append({"kind": "gen-differs-between-equal-parsers", "grammar": gtext, "detail": {"mode": mode}})
+                except Exception as e:  # noqa: BLE001
+                    res["nviol"] += 1
+                    res["viol"].append({"kind": "generate-raised", "grammar": gtext, "detail": {"mode": mode, "error": f"{type(e).__name__}: {e}"[:300]}})
         for cps, k, expected in rec["cases"]:
             text = text_of(cps)
             res["cases"] += 1
@@ -204,7 +252,7 @@ def run_family(rep: C.Report, fam: dict, judge: str, modes, build_modes=None, np
         {"Family": fam["Family"], "MaxLen": fam["MaxLen"], "Starts": fam["Starts"], "Sample": fam.get("Sample", 0)},
         list(fam.get("invariants", ["RefTreeWF", "RefSingleRoot"])) + ["Emit"],
     )
-    cfg = {"judge": judge, "modes": list(modes), "build_modes": list(build_modes), "classify": classify}
+    cfg = {"judge": judge, "modes": list(modes), "build_modes": list(build_modes), "classify": classify, "gen_twice": bool(fam.get("gen_twice")), "opt_cfgs": fam.get("opt_cfgs"), "style": fam.get("style", "alt")}
     nproc = nproc or max(2, C.NCPU - int(fam.get("workers", 4)))
     pool = mp.get_context("fork").Pool(nproc, initializer=_init_worker)
     pending = []
